@@ -22,12 +22,16 @@ func CloneGenome(g *genetics.Genome, id int) *genetics.Genome {
 	nmap := map[*network.NNode]*network.NNode{}
 	for i, n := range g.Nodes {
 		nodes[i] = network.NewNNodeCopy(n, tmap[n.Trait])
+		// every field is stated by the harness itself: a harness copy must not depend on a library copy routine
+		nodes[i].Id, nodes[i].NeuronType, nodes[i].ActivationType, nodes[i].Trait = n.Id, n.NeuronType, n.ActivationType, tmap[n.Trait]
 		nmap[n] = nodes[i]
 	}
 	genes := make([]*genetics.Gene, len(g.Genes))
 	for i, gn := range g.Genes {
 		l := network.NewLinkWithTrait(tmap[gn.Link.Trait], gn.Link.ConnectionWeight, nmap[gn.Link.InNode], nmap[gn.Link.OutNode], gn.Link.IsRecurrent)
+		l.InNode, l.OutNode, l.IsRecurrent, l.Trait, l.ConnectionWeight = nmap[gn.Link.InNode], nmap[gn.Link.OutNode], gn.Link.IsRecurrent, tmap[gn.Link.Trait], gn.Link.ConnectionWeight
 		genes[i] = genetics.NewConnectionGene(l, gn.InnovationNum, gn.MutationNum, gn.IsEnabled)
+		genes[i].InnovationNum, genes[i].MutationNum, genes[i].IsEnabled = gn.InnovationNum, gn.MutationNum, gn.IsEnabled
 	}
 	if len(g.ControlGenes) == 0 {
 		return genetics.NewGenome(id, traits, nodes, genes)
@@ -35,13 +39,16 @@ func CloneGenome(g *genetics.Genome, id int) *genetics.Genome {
 	var mods []*genetics.MIMOControlGene
 	for _, cg := range g.ControlGenes {
 		cn := network.NewNNodeCopy(cg.ControlNode, tmap[cg.ControlNode.Trait])
+		cn.Id, cn.NeuronType, cn.ActivationType, cn.Trait = cg.ControlNode.Id, cg.ControlNode.NeuronType, cg.ControlNode.ActivationType, tmap[cg.ControlNode.Trait]
 		for _, l := range cg.ControlNode.Incoming {
 			cn.Incoming = append(cn.Incoming, network.NewLinkCopy(l, nmap[l.InNode], cn))
 		}
 		for _, l := range cg.ControlNode.Outgoing {
 			cn.Outgoing = append(cn.Outgoing, network.NewLinkCopy(l, cn, nmap[l.OutNode]))
 		}
-		mods = append(mods, genetics.NewMIMOGeneCopy(cg, cn))
+		mg := genetics.NewMIMOGeneCopy(cg, cn)
+		mg.InnovationNum, mg.MutationNum, mg.IsEnabled = cg.InnovationNum, cg.MutationNum, cg.IsEnabled
+		mods = append(mods, mg)
 	}
 	return genetics.NewModularGenome(id, traits, nodes, genes, mods)
 }
